@@ -184,7 +184,7 @@ def run(ctx):
                      sens)
     ctx.tlc("CimEqHeap", "CimEqHeap.cfg", coverage=False,
             label="heap model: copy()/copy.copy/deepcopy/pickle + <=2 "
-            "mutations, Independence + Tight for 16 object graphs")
+            "mutations, Independence + Tight for 19 object graphs")
     check_regression(ctx, "CimEqHeap", "CimEqHeapRegDict.cfg",
                      ("Independence",), "copy() shares the child dictionary",
                      sens)
@@ -510,8 +510,7 @@ def signature(vec, clauses):
         return "triple:%s:%s" % (e["a"]["k"], cl)
     if e["ev"] == "hist":
         last = e["acts"][-1] if e["acts"] else {"v": "", "steps": []}
-        return "hist:%s:%s:%s@%s" % (e["k"], cl, last["v"],
-                                     (last["steps"] or ["(self)"])[-1])
+        return "hist:%s:%s:%s" % (e["k"], cl, last["v"])
     bad = sorted({"/".join(m["steps"]) or "(self)" for m in e["muts"]
                   if m["same"] != "T"})
     detail = ",".join(bad) if "Copy.Independent" in clauses else ""
